@@ -636,12 +636,73 @@ def quant_trunc(rng, fails, stats, tier, rule_mismatch):
     return collected
 
 
+def band_order(rng, tier, fails, disagreements, stats):
+    """which complex pair order the NITF reader infers from the band subcategories (nitf.py _get_dtype): every pair of bands must carry
+    the same labelling, the last pair included; model Spec.NitfDtype (theorems Props/C08Order.lean) vs the implementation on stand-in
+    image headers, plus the independent statement of the rule"""
+    import types
+    from sarpy.io.general import nitf
+    pairs = [('I', 'Q'), ('Q', 'I'), ('M', 'P'), ('P', 'M')]
+    cases = []
+    for _ in range(150 if tier == 'quick' else 3000):
+        n = rng.choice([1, 2, 2, 3, 4, 4, 5, 6, 6, 8])
+        base = rng.choice(pairs)
+        labs = []
+        for k in range(n // 2):
+            labs += list(base)
+        if n % 2:
+            labs.append(rng.choice(['I', 'Q', '', 'M']))
+        mode = rng.random()
+        if mode < 0.45 and n >= 2:
+            k = rng.randrange(n // 2) if rng.random() < 0.5 else n // 2 - 1       # often the LAST pair
+            alt = rng.choice([p for p in pairs if p != base] + [('', ''), ('I', 'I'), ('R', 'G')])
+            labs[2 * k:2 * k + 2] = list(alt)
+        elif mode < 0.55:
+            labs = [rng.choice(['I', 'Q', 'M', 'P', '', 'R']) for _ in range(n)]
+        pv = rng.choice(['SI', 'R', 'INT', 'R'])
+        cases.append((labs, pv))
+    drv = Driver()
+    idx = [drv.ask('nitfdtype order ' + ','.join(l or '_' for l in labs) + ' ' + pv) for labs, pv in cases]
+    try:
+        ans = drv.run()
+    except Infra as e:
+        ans = None
+        disagreements.append({'kind': 'band-order', 'msg': 'band-order model driver does not build / run: ' + str(e)[:300]})
+    for (labs, pv), i in zip(cases, idx):
+        stats['band_order_cases'] = stats.get('band_order_cases', 0) + 1
+        hdr = types.SimpleNamespace(Bands=[types.SimpleNamespace(ISUBCAT=l, LUTD=None) for l in labs], NBPP=32, PVTYPE=pv)
+        try:
+            raw_dtype, fdt, fb, order, lut = nitf._get_dtype(hdr)
+            impl = f'{order or "N"} {fb} 1'
+        except ValueError:
+            impl = 'refused'
+        except Exception as e:
+            impl = 'raised ' + type(e).__name__
+        # the rule, stated independently: all pairs equal to the first pair, which is one of the four labellings
+        want = None
+        if len(labs) % 2 == 0 and len(labs) >= 2 and (labs[0], labs[1]) in pairs and all((labs[k], labs[k + 1]) == (labs[0], labs[1]) for k in range(0, len(labs), 2)):
+            want = labs[0] + labs[1]
+        ok_pv = want is None or (pv in ('SI', 'R') if want in ('IQ', 'QI') else pv in ('INT', 'R'))
+        expect = 'refused' if not ok_pv else f'{want or "N"} {len(labs) // 2 if want else len(labs)} 1'
+        if impl != expect:
+            fails.append({'kind': 'band-order', 'msg': f'NITF band subcategories {labs} (PVTYPE {pv}): the reader infers {impl}, the labelling rule gives {expect} '
+                                                       f'(bands may be combined into complex samples only when every pair carries the same labels)', 'case': {'labels': labs, 'pvtype': pv}})
+        if ans is not None:
+            m = ans[i].split()
+            model = 'refused' if m[2] == '0' else f'{m[0]} {m[1]} 1'
+            if model != impl:
+                disagreements.append({'kind': 'band-order', 'msg': f'band subcategories {labs} (PVTYPE {pv}): model {model} vs implementation {impl}'})
+
+
 def run(tier):
     sarpy_guard()
     from sarpy.io.general.format_function import ComplexFormatFunction
     chk = Check('C08', tier)
     rng = chk.rng
-    broken = chk.prove(['SarpyModel.Props.C08', 'SarpyModel.Drivers'], 'SarpyModel.Props.C08', 'Sarpy.Props.C08', REQUIRED)
+    broken = chk.prove(['SarpyModel.Props.C08', 'SarpyModel.Props.C08Order', 'SarpyModel.Drivers'], 'SarpyModel.Props.C08', 'Sarpy.Props.C08', REQUIRED,
+                       extra=[('SarpyModel.Props.C08Order', 'Sarpy.Props.C08Order',
+                               ['pairOrder_labels', 'complexOrder_cons', 'allPairs_append_pair', 'complexOrder_last_pair', 'allPairs_length',
+                                'complexOrder_even', 'formattedBands_complex', 'formattedBands_plain'])])
     fails, stats, disagreements = [], {}, []
     exhaustive_mp(fails, stats)
     exhaustive_table(rng, fails, stats, 2 if tier == 'quick' else 12)
@@ -819,6 +880,7 @@ def run(tier):
         'ampsf_out_of_range_not_judged) and skipped',
         'the reduction of the rounded phase 2^b to 0 is done by the float -> unsigned cast of numpy on this platform (x86-64); the model states it as mod 2^b and the wrap oracle checks it',
         'uint32 magnitude/phase quantisation is not exercised off-grid: float32 carries 24 bits, the scaled phase is not resolved to a step']
+    band_order(rng, tier, fails, disagreements, stats)
     unknown = [f for f in fails if not (f.get('key') and chk.known(f['key']))]
     for f in unknown[:5]:
         chk.violation(f['msg'], {'case': f, 'replay_cmd': './check C08 --replay <this file>'}, True)
